@@ -566,6 +566,8 @@ type FuncSpec struct {
 	Unroll   map[int]int
 	Uses     []string
 	FilePkg  string // package of the contract file the spec was written in
+	Claims   []*Clause // for `prove` blocks: stand-alone lemmas to be proved
+	Assumes  []*Clause // hypotheses of a `prove` block
 }
 
 type GhostDecl struct {
@@ -613,7 +615,7 @@ func newSpecSet() *SpecSet {
 var clauseKeywords = map[string]bool{"func": true, "requires": true, "ensures": true, "modifies": true,
 	"loop": true, "inline": true, "props": true, "arith": true, "pure": true, "function": true, "writes": true,
 	"type": true, "spec": true, "lemma": true, "global": true, "trusted": true, "ghost": true, "allocs": true,
-	"skip": true, "end": true, "uses": true, "ghostvar": true}
+	"skip": true, "end": true, "uses": true, "ghostvar": true, "prove": true, "claim": true, "given": true}
 
 // specLines extracts the //@ payload lines of a Go file, or all lines of a
 // .spec file.
@@ -893,6 +895,24 @@ func (ss *SpecSet) parseFile(path, pkg string) error {
 				ss.Globals = append(ss.Globals, l)
 			}
 			cur = nil
+		case "prove":
+			name := strings.TrimSpace(rest)
+			cur = &FuncSpec{Target: "prove " + name, Pkg: pkg, FilePkg: pkg, Loops: map[int][]*Clause{}, LoopMods: map[int][]*Clause{}, Line: where, Skip: map[string]bool{}, Unroll: map[int]int{}}
+			ss.Funcs[pkg+".prove "+name] = cur
+		case "claim", "given":
+			if cur == nil {
+				return fail(fmt.Errorf("clause outside block"))
+			}
+			e, err := parseExpr(rest)
+			if err != nil {
+				return fail(err)
+			}
+			c := &Clause{Kind: kw, Src: rest, E: e, Line: where}
+			if kw == "claim" {
+				cur.Claims = append(cur.Claims, c)
+			} else {
+				cur.Assumes = append(cur.Assumes, c)
+			}
 		case "ghostvar":
 			f := strings.Fields(rest)
 			if len(f) != 2 {
